@@ -108,5 +108,39 @@ pub mod std {
                 self.inner.seek(pos)
             }
         }
+
+        /// Sequential reads are subject to the same decisions as `read_at`.
+        impl io::Read for File {
+            fn read(&mut self, buf: &mut [u8]) -> io::Result<usize> {
+                use io::Seek;
+                let op = FsOp::ReadAt {
+                    path: &self.path,
+                    offset: self.inner.stream_position()?,
+                    len: buf.len(),
+                };
+                match decide(op) {
+                    FsDecision::Real => self.inner.read(buf),
+                    FsDecision::Fail(kind) => Err(io::Error::new(kind, "zvt_verif: injected")),
+                    FsDecision::Short(n) => {
+                        let n = n.min(buf.len());
+                        self.inner.read(&mut buf[..n])
+                    }
+                }
+            }
+        }
+
+        /// Everything else goes to the real file.
+        impl ::std::ops::Deref for File {
+            type Target = ::std::fs::File;
+            fn deref(&self) -> &Self::Target {
+                &self.inner
+            }
+        }
+
+        impl ::std::ops::DerefMut for File {
+            fn deref_mut(&mut self) -> &mut Self::Target {
+                &mut self.inner
+            }
+        }
     }
 }
